@@ -488,6 +488,10 @@ class MatrixSum(Expression):
         For MatrixSum(X), gradient w.r.t. X[i,j] is 1 for all elements in X,
         0 for all other variables.
         """
+        # Only a matrix of plain variables has unit derivatives; for a
+        # MatrixExpression (e.g. (X * Y).sum()) fall back to general autodiff.
+        if not isinstance(self.matrix, MatrixVariable):
+            return None
         my_vars = self.matrix.get_variables()
         return [Constant(1.0) if var in my_vars else Constant(0.0) for var in variables]
 
